@@ -25,6 +25,7 @@ type loggerSpec struct {
 	Parent      int // -1: root
 	OwnAttrs    bool
 	SharedGroup bool // the logger-level attributes include the shared group value
+	CtxKeys     bool // the logger extracts the request id from the call's context (string key and Stringer key)
 }
 
 type workload struct {
@@ -36,11 +37,13 @@ type workload struct {
 	MultiLine  bool
 	ErrorVals  bool
 	YieldEvery int
+	Blanks     bool // some calls are blank Print/Println (delivered as a bare newline)
+	OddLevels  bool // some calls use unregistered numeric levels (one per goroutine)
 }
 
 func (w workload) String() string {
-	return fmt.Sprintf("loggers=%+v G=%d N=%d GOMAXPROCS=%d callSharedGroup=%v multiline=%v errors=%v yieldEvery=%d seed=%d",
-		w.Loggers, w.G, w.N, w.Procs, w.CallGroup, w.MultiLine, w.ErrorVals, w.YieldEvery, w.Seed)
+	return fmt.Sprintf("loggers=%+v G=%d N=%d GOMAXPROCS=%d callSharedGroup=%v multiline=%v errors=%v blanks=%v unregisteredLevels=%v yieldEvery=%d seed=%d",
+		w.Loggers, w.G, w.N, w.Procs, w.CallGroup, w.MultiLine, w.ErrorVals, w.Blanks, w.OddLevels, w.YieldEvery, w.Seed)
 }
 
 // the members of the shared group: unsorted and with a duplicate key so that the
@@ -65,6 +68,12 @@ func mix(x uint64) uint64 {
 }
 
 var stackErr = errorsv3.New("stack carrying error")
+
+type ctxKeyT struct{ n string }
+
+func (k *ctxKeyT) String() string { return k.n }
+
+var reqKey = &ctxKeyT{"requser"}
 
 type expectation struct {
 	logger int
@@ -151,6 +160,9 @@ func run(t *rapid.T, test string, wl workload) {
 			own[i] = append(own[i], sharedExp)
 			lg.SetAttrs(shared)
 		}
+		if ls.CtxKeys {
+			lg.SetContextKeys("reqid", reqKey)
+		}
 	}
 
 	// the plan: what call (g,i) does, a pure function of the drawn seed
@@ -158,6 +170,7 @@ func run(t *rapid.T, test string, wl workload) {
 		logger int
 		sev    slog.Level
 		admit  bool
+		blank  bool
 	}
 	plan := func(g, i int) call {
 		h := mix(wl.Seed ^ uint64(g)<<32 ^ uint64(i))
@@ -172,9 +185,21 @@ func run(t *rapid.T, test string, wl workload) {
 		default:
 			c.sev, c.admit = slog.InfoLevel, true
 		}
+		if wl.OddLevels && (h>>16)%4 == 0 {
+			c.sev, c.admit = slog.Level(-100-g), true // unregistered, one value per goroutine; numerically admitted by an Info logger
+		}
+		if wl.Blanks && (h>>24)%6 == 0 {
+			c.sev, c.admit, c.blank = slog.AlwaysLevel, true, true
+		}
 		return c
 	}
-	levelName := map[slog.Level]string{slog.ErrorLevel: "error", slog.WarnLevel: "warning", slog.InfoLevel: "info", slog.DebugLevel: "debug"}
+	blanksExpected := map[int]int{}
+	levelName := func(l slog.Level) string {
+		if n, ok := vlib.BuiltinNames[l]; ok {
+			return n
+		}
+		return l.String() // unregistered: whatever the package calls it
+	}
 
 	expected := map[string]expectation{}
 	for g := 0; g < wl.G; g++ {
@@ -183,12 +208,21 @@ func run(t *rapid.T, test string, wl workload) {
 			if !c.admit {
 				continue
 			}
+			if c.blank {
+				blanksExpected[c.logger]++
+				continue
+			}
 			id := fmt.Sprintf("id-%d-%d", g, i)
 			msg := "concurrent " + id
 			if wl.MultiLine && i%3 == 0 {
 				msg += "\nsecond line of " + id + "\nthird"
 			}
-			attrs := append([]vlib.ExpAttr{}, own[c.logger]...)
+			var attrs []vlib.ExpAttr
+			if wl.Loggers[c.logger].CtxKeys {
+				// context values come first in the merge
+				attrs = append(attrs, vlib.ExpAttr{Key: "reqid", Val: vlib.Value{Kind: "string", V: "req-" + id}}, vlib.ExpAttr{Key: "requser", Val: vlib.Value{Kind: "int", V: g*100000 + i}})
+			}
+			attrs = append(attrs, own[c.logger]...)
 			attrs = append(attrs, vlib.ExpAttr{Key: "id", Val: vlib.Value{Kind: "string", V: id}}, vlib.ExpAttr{Key: "i", Val: vlib.Value{Kind: "int", V: i}})
 			if wl.CallGroup && i%2 == 0 {
 				attrs = append(attrs, sharedExp)
@@ -196,7 +230,7 @@ func run(t *rapid.T, test string, wl workload) {
 			if wl.ErrorVals && i%4 == 1 {
 				attrs = append(attrs, vlib.ExpAttr{Key: "err", Val: vlib.Value{Kind: "error", V: stackErr}})
 			}
-			expected[id] = expectation{logger: c.logger, level: levelName[c.sev], msg: msg, attrs: attrs}
+			expected[id] = expectation{logger: c.logger, level: levelName(c.sev), msg: msg, attrs: attrs}
 		}
 	}
 
@@ -215,6 +249,14 @@ func run(t *rapid.T, test string, wl workload) {
 			<-start
 			for i := 0; i < wl.N; i++ {
 				c := plan(g, i)
+				if c.blank {
+					if i%2 == 0 {
+						loggers[c.logger].Println()
+					} else {
+						loggers[c.logger].Print("  ")
+					}
+					continue
+				}
 				id := fmt.Sprintf("id-%d-%d", g, i)
 				msg := "concurrent " + id
 				if wl.MultiLine && i%3 == 0 {
@@ -227,7 +269,8 @@ func run(t *rapid.T, test string, wl workload) {
 				if wl.ErrorVals && i%4 == 1 {
 					args = append(args, "err", error(stackErr))
 				}
-				loggers[c.logger].LogAttrs(context.Background(), c.sev, msg, args...)
+				ctx := context.WithValue(context.WithValue(context.Background(), "reqid", "req-"+id), reqKey, g*100000+i) //nolint:staticcheck // string key on purpose
+				loggers[c.logger].LogAttrs(ctx, c.sev, msg, args...)
 			}
 		}(g)
 	}
@@ -244,8 +287,13 @@ func run(t *rapid.T, test string, wl workload) {
 
 	// every payload is the complete record of exactly one call
 	seen := map[string]int{}
+	blanksSeen := map[int]int{}
 	for _, e := range log.Writes() {
 		p := e.Payload
+		if string(p) == "\n" {
+			blanksSeen[e.W]++
+			continue
+		}
 		id := ""
 		if k := strings.Index(string(p), "id-"); k >= 0 {
 			end := k + 3
@@ -312,6 +360,11 @@ func run(t *rapid.T, test string, wl workload) {
 			t.Fatalf("C08 %v: the payload for call %s is not the complete, uncorrupted record of that call: %s\npayload: %q", wl, id, prob.Msg, p)
 		}
 	}
+	for lgi := range wl.Loggers {
+		if blanksSeen[lgi] != blanksExpected[lgi] {
+			t.Fatalf("C08 %v: logger %d delivered %d blank lines, %d blank Print/Println calls were made", wl, lgi, blanksSeen[lgi], blanksExpected[lgi])
+		}
+	}
 	var missing, dup []string
 	for id := range expected {
 		switch n := seen[id]; {
@@ -340,6 +393,9 @@ func run(t *rapid.T, test string, wl workload) {
 		}
 		if ls.Parent >= 0 {
 			sharing["parent-child"] = true
+		}
+		if ls.CtxKeys {
+			sharing["context-keys"] = true
 		}
 	}
 	if wl.CallGroup {
@@ -376,7 +432,8 @@ func genWorkload(t *rapid.T, maxCalls int) workload {
 	nl := rapid.IntRange(1, 8).Draw(t, "loggers")
 	for i := 0; i < nl; i++ {
 		ls := loggerSpec{Format: rapid.SampledFrom([]string{"json", "logfmt", "color"}).Draw(t, "format"), Parent: -1,
-			OwnAttrs: rapid.Bool().Draw(t, "ownAttrs"), SharedGroup: rapid.IntRange(0, 2).Draw(t, "loggerSharedGroup") == 0}
+			OwnAttrs: rapid.Bool().Draw(t, "ownAttrs"), SharedGroup: rapid.IntRange(0, 2).Draw(t, "loggerSharedGroup") == 0,
+			CtxKeys: rapid.IntRange(0, 2).Draw(t, "ctxKeys") == 0}
 		if i > 0 && rapid.Bool().Draw(t, "child") {
 			ls.Parent = rapid.IntRange(0, i-1).Draw(t, "parent")
 		}
@@ -396,6 +453,8 @@ func genWorkload(t *rapid.T, maxCalls int) workload {
 	wl.MultiLine = rapid.Bool().Draw(t, "multiLine")
 	wl.ErrorVals = rapid.Bool().Draw(t, "errorValues")
 	wl.YieldEvery = rapid.SampledFrom([]int{0, 1, 3, 7}).Draw(t, "yieldEvery")
+	wl.Blanks = rapid.IntRange(0, 2).Draw(t, "blankPrints") == 0
+	wl.OddLevels = rapid.IntRange(0, 2).Draw(t, "unregisteredLevels") == 0
 	return wl
 }
 
